@@ -16,18 +16,51 @@ import ast
 from itertools import product
 
 from ..absmachine import AbsMachine, Obj, Outcome, Raise, UNKNOWN, class_isinstance
-from ..astx import call_name, calls, method_name
+from ..astx import attr_writes, call_name, calls, method_name, walk_local
 from ..cfg import CFG
 from ..exctable import ExcTable
 from ..explore import Explorer
 from ..loader import AnalysisError, EnumMember, Repo
-from ..report import Check
+from ..report import Check, canon
 
 TQ = "xknx.core.telegram_queue"
 DIR = "xknx.telegram.telegram:TelegramDirection"
 
 
+def registry(chk: Check, repo: Repo) -> None:
+    """A registration stays in force until that very registration is unregistered: the registry list is created empty
+    in __init__, grows only by `append(<the Callback object built from the arguments>)` in register_... and shrinks
+    only by `remove(<the Callback object passed in>)` in unregister_... (removal by identity/equality of the
+    registration object, never by its handler or filters); nothing else assigns or mutates it."""
+    tq = repo.cls("xknx.core.telegram_queue", "TelegramQueue")
+    ws = [w for w in attr_writes(repo, "telegram_received_cbs", include_mutators=True)]
+    chk.count("writers of the telegram callback registry", len(ws))
+    chk.floor("writers of the telegram callback registry", len(ws), 3)
+    for w in ws:
+        q = w.func.qualname
+        st = w.stmt
+        ok = False
+        what = canon(st)[:90]
+        if q == "TelegramQueue.__init__":
+            v = st.value if isinstance(st, (ast.Assign, ast.AnnAssign)) else None
+            ok = isinstance(v, ast.List) and not v.elts
+        elif q == "TelegramQueue.register_telegram_received_cb":
+            c = st.value if isinstance(st, ast.Expr) else (st if isinstance(st, ast.Call) else None)
+            if isinstance(c, ast.Call) and isinstance(c.func, ast.Attribute) and c.func.attr == "append" and len(c.args) == 1 and isinstance(c.args[0], ast.Name):
+                built = [n for n in walk_local(w.func.node) if isinstance(n, ast.Assign) and len(n.targets) == 1 and isinstance(n.targets[0], ast.Name) and n.targets[0].id == c.args[0].id]
+                rets = [n for n in walk_local(w.func.node) if isinstance(n, ast.Return)]
+                ok = len(built) == 1 and isinstance(built[0].value, ast.Call) and call_name(built[0].value).endswith("Callback") and all(isinstance(r.value, ast.Name) and r.value.id == c.args[0].id for r in rets)
+        elif q == "TelegramQueue.unregister_telegram_received_cb":
+            c = st.value if isinstance(st, ast.Expr) else (st if isinstance(st, ast.Call) else None)
+            param = w.func.node.args.args[1].arg
+            ok = isinstance(c, ast.Call) and isinstance(c.func, ast.Attribute) and c.func.attr == "remove" and len(c.args) == 1 and isinstance(c.args[0], ast.Name) and c.args[0].id == param
+        chk.ob("registration-lives-until-it-is-unregistered", w.func.site(st), ok, f"{q}: `{what}`" + ("" if ok else " — not one of: empty list in __init__, append of the new Callback in register, remove of the passed Callback in unregister"), key=f"registry|{q}|{w.kind}")
+    eqs = [m for m in ("__eq__", "__hash__") if m in repo.cls("xknx.core.telegram_queue", "TelegramQueue.Callback").methods]
+    chk.ob("registration-lives-until-it-is-unregistered", f"{tq.module.relpath}:{tq.node.lineno}:TelegramQueue.Callback", not eqs, f"TelegramQueue.Callback defines {eqs or 'no'} equality of its own: list.remove() finds the registration object itself", key="registry|identity")
+
+
 def run(chk: Check, repo: Repo) -> None:
+    registry(chk, repo)
     from .common_rules import dispatch_iterates_a_snapshot
     dispatch_iterates_a_snapshot(chk, repo, repo.func("xknx.core.telegram_queue", "TelegramQueue._run_telegram_received_cbs"), "telegram_received_cbs", "the telegram callbacks", "snapshot|telegram-callbacks")
     fi = repo.func(TQ, "TelegramQueue.Callback.is_within_filter")
